@@ -187,6 +187,33 @@ class Repo:
         self.attr_types = {}
         self.elem_types = {}
         self._infer_attr_types()
+        self._nonnull_families()
+
+    def _nonnull_families(self):
+        """Suffix patterns ('idle', '*') of subscript locations X['idle'][k] whose every store in
+        the package assigns a value that cannot be None (a display, a number, a string, a
+        list()/dict()/set() call).  Used by path pruning: a local read from such a location is
+        not None."""
+        from . import paths as _paths
+        good, bad = set(), set()
+        for m in self.modules.values():
+            for n in ast.walk(m.tree):
+                tgts = []
+                if isinstance(n, ast.Assign):
+                    tgts = [(t, n.value) for t in n.targets]
+                elif isinstance(n, ast.AnnAssign) and n.value is not None:
+                    tgts = [(n.target, n.value)]
+                elif isinstance(n, ast.AugAssign):
+                    tgts = [(n.target, None)]
+                for t, v in tgts:
+                    pat = _paths.loc_suffix(t)
+                    if pat is None:
+                        continue
+                    if v is not None and _paths.never_none(v):
+                        good.add(pat)
+                    else:
+                        bad.add(pat)
+        _paths.NONNULL = good - bad
 
     # ------------------------------------------------------------------ E1
     def _index_module(self, m):
